@@ -187,6 +187,11 @@ ReaderAccepts(version, headerLen, elements, itemsize, avail, extra) ==
         /\ IF AB_StopAtCount THEN got >= elements * itemsize
            ELSE got % itemsize = 0 /\ got \div itemsize = elements
 
+(* What the junk consists of may not matter: zeros, 0xff, a byte pattern, or bytes that LOOK like harmless trailing *)
+(* text (newlines, blanks, CR LF, tabs, a value line, a second npy magic).  The reader model above never looks at *)
+(* the content - the replay appends every one of these fills.                                                       *)
+ExtFills == {"pattern", "zero", "ff", "newline", "space", "crlf", "tab", "formfeed", "text", "magic"}
+
 (* C16 for one file: every strict prefix and every extension is rejected; the intact file is accepted *)
 DamageRejected(version, headerLen, elements, itemsize, maxExt) ==
     LET total == FileLen(version, headerLen, elements * itemsize)
